@@ -324,6 +324,7 @@ func generate(rng *vh.Rng, hostile bool) Case {
 		wCtl = 3 + rng.Intn(8)
 	}
 	accIn, accOut := 0, 0
+	answersTaken := 0 // answers retrieved by the requesters (RI, DO)
 	crashedAny := false
 	acksSeen := 0
 	do := func(e Event) Event {
@@ -344,6 +345,8 @@ func generate(rng *vh.Rng, hostile bool) Case {
 				pendIn = append(pendIn, o)
 			case "DI":
 				pendOut = append(pendOut, o)
+			case "RI", "DO":
+				answersTaken++
 			case "CT":
 				if e.Got.Flags == flDrainRsp {
 					acksSeen++
@@ -464,7 +467,8 @@ func generate(rng *vh.Rng, hostile bool) Case {
 	// control port. The engine must acknowledge the drain once nothing is in flight.
 	if !hostile && !crashedAny {
 		c.DrainTail = len(c.Events)
-		rounds := 2*((accIn-len(ansIn))+(accOut-len(ansOut))) + 14
+		// rdma_liveness (coq/mem/RdmaLive.v): acknowledged within 5*unanswered + 2 rounds; run past that bound
+		rounds := 5*(accIn+accOut-answersTaken) + 14
 		before := acksSeen
 		if phase == 2 || phase == 3 {
 			before = -1 // the acknowledgement of an earlier drain does not count
